@@ -21,47 +21,6 @@ open LiquidVerif.SpanLex
 section expr
 open LiquidVerif.ExprLex
 
-theorem convert_spec (base : Nat) (p : Nat × Match) (t : Token)
-    (h : convert base p = some (.inl t) ∨ convert base p = some (.inr t)) :
-    t.start = base + p.1 ∧
-    (t.value = p.2.raw ∨ (t.value = p.2.grp ∧ (t.kind = "identindex" ∨ t.kind = "identstring" ∨ t.kind = "string"))) := by
-  unfold convert at h
-  simp only at h
-  split at h
-  · split at h <;> (rcases h with h | h <;> simp at h <;> subst h <;> simp)
-  · rcases h with h | h <;> simp at h <;> subst h <;> simp
-  · rcases h with h | h <;> simp at h <;> subst h <;> simp
-  · rcases h with h | h <;> simp at h <;> subst h <;> simp
-  · split at h <;> (rcases h with h | h <;> simp at h <;> subst h <;> simp)
-  · rcases h with h | h <;> simp at h
-  · rcases h with h | h <;> simp at h <;> subst h <;> simp
-  · rcases h with h | h <;> simp at h <;> subst h <;> simp
-
-theorem collect_mem (base : Nat) : ∀ (ps : List (Nat × Match)) (t : Token),
-    (t ∈ (collect base ps).1 ∨ (collect base ps).2 = some t) →
-    ∃ p ∈ ps, convert base p = some (.inl t) ∨ convert base p = some (.inr t) := by
-  intro ps
-  induction ps with
-  | nil => intro t h; simp [collect] at h
-  | cons p ps ih =>
-    intro t h
-    simp only [collect] at h
-    split at h
-    · obtain ⟨q, hq, hc⟩ := ih t h
-      exact ⟨q, List.mem_cons_of_mem _ hq, hc⟩
-    · next e he =>
-      rcases h with h | h
-      · simp at h
-      · simp at h; subst h; exact ⟨p, by simp, Or.inr he⟩
-    · next t' ht =>
-      rcases h with h | h
-      · rcases List.mem_cons.mp h with h | h
-        · subst h; exact ⟨p, by simp, Or.inl ht⟩
-        · obtain ⟨q, hq, hc⟩ := ih t (Or.inl h)
-          exact ⟨q, List.mem_cons_of_mem _ hq, hc⟩
-      · obtain ⟨q, hq, hc⟩ := ih t (Or.inr h)
-        exact ⟨q, List.mem_cons_of_mem _ hq, hc⟩
-
 /-- **Sentence 1, expression tokens (variables, filter names, keywords, numbers, punctuation).**
 For every expression source and every parent offset, every token yielded by `tokenize` — and the token
 of the syntax error it raises — has a start index that points, in the parent's source, at the token's
@@ -108,37 +67,6 @@ end expr
 /-! ## liquid-tag inner tokens -/
 section liquid
 open LiquidVerif.LiquidLines
-
-theorem lcollect_mem (marker : List Char) (base : Nat) : ∀ (ps : List (Nat × LMatch)) (t : Token),
-    t ∈ (collect marker base ps).1 →
-    ∃ p ∈ ps, (t.value = p.2.name ∧ t.start = base + (p.1 + p.2.nameOff)) ∨
-              (t.value = p.2.expr ∧ t.start = base + (p.1 + p.2.exprOff)) := by
-  intro ps
-  induction ps with
-  | nil => intro t h; simp [collect] at h
-  | cons p ps ih =>
-    intro t h
-    obtain ⟨pos, m⟩ := p
-    simp only [collect] at h
-    have tail : t ∈ (collect marker base ps).1 →
-        ∃ p ∈ (pos, m) :: ps, (t.value = p.2.name ∧ t.start = base + (p.1 + p.2.nameOff)) ∨
-              (t.value = p.2.expr ∧ t.start = base + (p.1 + p.2.exprOff)) := fun h' => by
-      obtain ⟨q, hq, hc⟩ := ih t h'
-      exact ⟨q, List.mem_cons_of_mem _ hq, hc⟩
-    split at h
-    · simp at h
-    · exact tail h
-    · split at h
-      · exact tail h
-      · split at h
-        · rcases List.mem_cons.mp h with h | h
-          · subst h; exact ⟨(pos, m), by simp, Or.inl ⟨rfl, rfl⟩⟩
-          · exact tail h
-        · rcases List.mem_cons.mp h with h | h
-          · subst h; exact ⟨(pos, m), by simp, Or.inl ⟨rfl, rfl⟩⟩
-          · rcases List.mem_cons.mp h with h | h
-            · subst h; exact ⟨(pos, m), by simp, Or.inr ⟨rfl, rfl⟩⟩
-            · exact tail h
 
 /-- **Sentence 1, tokens inside `{% liquid %}`.**  For every liquid-tag body, every comment marker and
 every offset of the enclosing expression token, each inner tag-name and expression token starts where
